@@ -769,6 +769,83 @@ theorem setCell_term_truncates {s : TupS α} {t : Tup α} (h : s.Cells t) (i : I
   · unfold TupS.rd
     rw [wr_get hw, if_pos rfl]; rfl
 
+/-! ### the operations that do not reallocate, for any Tuple block (on the heap or not) -/
+
+theorem get_cells {s : TupS α} {t : Tup α} (h : s.Cells t) (i : Int) : s.get i = t.get i := by
+  unfold TupS.get TupS.getCell Tup.get
+  rw [h.len_sim]
+  have hn : t.len = t.items.length := rfl
+  simp only
+  by_cases hc : normIdx t.len i < 0 ∨ normIdx t.len i ≥ (t.len : Int)
+  · simp only [if_pos hc]
+  · simp only [if_neg hc]
+    have hkl : (normIdx t.len i).toNat < t.items.length := by omega
+    rw [h.rd_lt _ hkl, List.getElem?_eq_getElem hkl]
+
+theorem set_cells {s : TupS α} {t : Tup α} (h : s.Cells t) (i : Int) (x : α) :
+    (s.set i x).1.Cells (t.set i x).1 ∧ (s.set i x).2 = (t.set i x).2 := by
+  unfold TupS.set TupS.setCell Tup.set
+  rw [h.len_sim]
+  have hn : t.len = t.items.length := rfl
+  simp only
+  by_cases hc : normIdx t.len i < 0 ∨ normIdx t.len i ≥ (t.len : Int)
+  · rw [if_pos hc, if_pos hc]; exact ⟨h, rfl⟩
+  · rw [if_neg hc, if_neg hc]
+    generalize hk : (normIdx t.len i).toNat = k
+    have hkl : k < t.items.length := by omega
+    obtain ⟨s1, hw⟩ := wr_some s k (.item x) (by rw [h.size]; omega)
+    rw [hw]
+    obtain ⟨w1, w2⟩ := wr_size hw
+    have := h.cell.wr_set hw
+    rw [enc_set _ _ _ hkl] at this
+    refine ⟨⟨?_, this⟩, rfl⟩
+    show s1.cells.size = (t.items.set k x).length + 1
+    rw [w1, h.size]; simp
+
+theorem readItems_cells {s : TupS α} {t : Tup α} (h : s.Cells t) : ∀ (n i : Nat), i + n ≤ t.items.length →
+    s.readItems i n = some ((t.items.drop i).take n) := by
+  intro n
+  induction n with
+  | zero => intro i _; simp [TupS.readItems]
+  | succ n ih =>
+    intro i hi
+    have hil : i < t.items.length := by omega
+    simp only [TupS.readItems, h.rd_lt i hil, ih (i + 1) (by omega), Option.map_some]
+    rw [List.drop_eq_getElem_cons hil, List.take_succ_cons]
+
+theorem items?_cells {s : TupS α} {t : Tup α} (h : s.Cells t) : s.items? = some t.items := by
+  unfold TupS.items?
+  rw [h.len_sim]
+  simp only [Option.bind_some, Tup.len]
+  rw [readItems_cells h _ 0 (by omega)]; simp
+
+theorem sortBy_cells {s : TupS α} {t : Tup α} (h : s.Cells t) (f : α → α → Bool) :
+    (s.sortBy f).1.Cells (t.sortBy f).1 ∧ (s.sortBy f).2 = (t.sortBy f).2 := by
+  unfold TupS.sortBy Tup.sortBy
+  rw [items?_cells h]
+  simp only
+  obtain ⟨s1, hw⟩ := wrFrom_some ((Sort.sortList f t.items).map .item) s 0 (by simp [Sort.sortList_length, h.size])
+  rw [hw]
+  have hp0 : s.Pre ([] : List (TCell α)) := by intro k hk; simp at hk
+  obtain ⟨_, g2, g3⟩ := Pre.wrFrom _ hp0 hw
+  refine ⟨⟨?_, ?_⟩, rfl⟩
+  · show s1.cells.size = (Sort.sortList f t.items).length + 1; rw [g2, h.size, Sort.sortList_length]
+  · intro j hj
+    show s1.cells[j]? = some ((enc (Sort.sortList f t.items))[j]?)
+    rw [enc_length, Sort.sortList_length] at hj
+    rw [wrFrom_get _ hw j]
+    simp only [List.length_map, Sort.sortList_length, Nat.zero_le, true_and, Nat.zero_add, Nat.sub_zero]
+    by_cases hlt : j < t.items.length
+    · rw [if_pos hlt]
+      unfold enc
+      rw [List.getElem?_append_left (by simp [Sort.sortList_length]; exact hlt)]
+    · have : j = t.items.length := by omega
+      subst this
+      rw [if_neg hlt, h.cell _ (by rw [enc_length]; omega), enc_get_len]
+      have := enc_get_len (Sort.sortList f t.items)
+      rw [Sort.sortList_length] at this
+      rw [this]
+
 /-- a Tuple that is not on the heap (`tuple(…)`, a static Tuple) refuses every operation that would reallocate its block:
     the operation raises (its own bounds error first where the C code checks that first, else `ValueError`) and the
     block is left as it was.  (`get`, `set`, `sort`, `len`, iteration and `mem` do not look at the allocation.) -/
